@@ -58,6 +58,16 @@ def extra_cases():
           + sent + "empty @is_you(int a, int b) { sleep(g(a)); write('.'); }\n")
     T('return-with-array-in-try', "int @f(int a) { int[] v = [a, 2]; try { int[] w = [a, a]; !truth_is_defeat(a > 3); return w[0] + v[1]; } stop { return v[0]; } }\n" + sent + "empty @is_you(int a, int b) { sleep(@f(a)); sleep(@f(b)); write('.'); }\n")
     T('return-with-array-recursive', "int f(int n) { int[] v = [n, n + 1]; if (n <= 0) { return v[1]; } return f(n - 1) + v[0]; }\n" + sent + "empty @is_you(int a, int b) { sleep(f(a % 3)); write('.'); }\n")
+    # functions with nothing in their body still return to their caller
+    T('empty-body-functions', "empty hook() { }\nempty stub(int a, int b) { }\nempty !dhook() { }\nempty @yhook() { }\n" + sent
+      + "empty @is_you(int a, int b) { write('a'); hook(); write('b'); stub(a, b); write('c'); try { !dhook(); write('d'); } undo { write('u'); } @yhook(); write('.'); if (a > 0) { tail(); } write('!'); }\nempty tail() { }\n")
+    T('empty-body-blocks', "empty f(int a) { { } if (a > 0) { } else { } while (a > 100) { } }\nint g(int a) { { { } } return a; }\n" + sent + "empty @is_you(int a, int b) { f(a); sleep(g(b)); write('.'); }\n")
+    # several try/stop blocks in one function, with another try/stop function running in between and defeat raised in a callee
+    T('two-try-stop-one-function', "empty !d(int v) { write('d'); !truth_is_defeat(v > 0); }\nempty @other(int v) { try { !d(v); write('o'); } stop { write('O'); } }\n"
+      "int @two(int a, int b) { int r = 0; try { !d(a); r += 1; } stop { write('1'); r += 10; } @other(b); try { !d(b); r += 2; } stop { write('2'); r += 20; } if (a > 5) { try { !d(a - 6); r += 4; } stop { r += 40; } } return r; }\n"
+      + sent + "empty @is_you(int a, int b) { sleep(@two(a, b)); @other(a); sleep(@two(b, a)); write('.'); }\n")
+    T('try-stop-in-untaken-branch', "empty !d(int v) { !truth_is_defeat(v > 0); }\nint @deep(int a, int b) { if (a > 3) { try { !d(b); return 1; } stop { return 2; } } return @inner(b); }\n"
+      "int @inner(int b) { try { !d(b); return 3; } stop { write('s'); } try { !d(b - 1); return 4; } stop { return 5; } }\n" + sent + "empty @is_you(int a, int b) { sleep(@deep(a, b)); sleep(@deep(b, a)); write('.'); }\n")
     T('last-function', "empty @is_you(int a, int b) { sleep(f(a)); write('.'); }\nint f(int a) { if (a > 0) { return 1; } return 2; }\n")
     return out
 
